@@ -115,6 +115,33 @@ def run(chk):
             plan.append({"repeat": cs.p3(slot, (xa, yb, TOP - d), d, ps), "of": ib, "what": "answer depends on another world alive in the process"})
             if qi == 3:
                 plan.append({"repeat": cs.p3(other_fresh, (xa, yb, TOP - d), d, ps), "of": io, "what": "answer depends on another world alive in the process"})
+    # a feature that asks the world back (tian water content reads the temperature of the whole world) under a forced surface
+    # temperature, queried at depth exactly 0 and next to it with batched requests: every block equals its stand-alone query
+    for wi in range(4 if chk.tier == "quick" else 40):
+        rng.seed("%d/c01-3/%d" % (chk.seed, wi))
+        tm = gg.tian_model(slab=False)
+        tm["compositions"] = [0]
+        tm.pop("operation", None)
+        for k_ in ("min depth", "max depth"):
+            tm.pop(k_, None)
+        fo = {"model": "oceanic plate", "name": "wet", "coordinates": [[-3e5, -3e5], [3e5, -3e5], [3e5, 3e5], [-3e5, 3e5]], "max depth": 1.5e5,
+              "temperature models": [{"model": "uniform", "temperature": float(round(rng.uniform(600, 1200)))}],
+              "composition models": [tm, {"model": "uniform", "compositions": [1], "fractions": [0.75]}],
+              "velocity models": [{"model": "uniform raw", "velocity": [0.03, 0.01, -0.02]}]}
+        wf = {"version": "1.1", "force surface temperature": True, "surface temperature": float(round(rng.uniform(250, 320), 1)), "features": [fo]}
+        if wi % 2 == 1:
+            wf["features"].append({"model": "continental plate", "name": "over", "coordinates": [[-1e5, -1e5], [4e5, -1e5], [4e5, 4e5], [-1e5, 4e5]], "max depth": 8e4,
+                                   "composition models": [{"model": "uniform", "compositions": [2], "fractions": [0.5], "operation": "replace defined only"}]})
+        sl = cs.add_world(wf)
+        for qi in range(6):
+            d = [0.0, 0.0, 1e-17, 0.0, 3e3, 0.0][qi]
+            pos = (rng.uniform(-2.5e5, 2.5e5), rng.uniform(-2.5e5, 2.5e5), TOP - d)
+            ps = [[[2, 0, 0], [2, 1, 0], [4, 0, 0], [5, 0, 0], [1, 0, 0]], [[2, 0, 0], [4, 0, 0], [2, 2, 0], [5, 0, 0]], [[1, 0, 0], [2, 0, 0], [2, 1, 0], [4, 0, 0]],
+                  [[5, 0, 0], [2, 0, 0], [1, 0, 0], [2, 1, 0], [4, 0, 0]], [[2, 0, 0], [2, 1, 0], [4, 0, 0]], [[2, 1, 0], [2, 0, 0], [5, 0, 0], [4, 0, 0]]][qi]
+            ib = cs.p3(sl, pos, d, ps)
+            for j, p1 in enumerate(ps):
+                plan.append({"repeat": cs.p3(sl, pos, d, [p1]), "of_block": (ib, ps, j),
+                             "what": "block %d of the batched answer differs from the stand-alone query %s (forced surface temperature, a model that asks the world back)" % (j, p1)})
     impl, model = cs.run()
     chk.evaluations = len(impl)
     # --- correspondence: model vs implementation, bit for bit (libm paths: exp only) ---------------
@@ -123,6 +150,13 @@ def run(chk):
     # --- property oracle on the implementation itself ----------------------------------------
     viol = []
     for pl in plan:
+        if "of_block" in pl:
+            ib_, ps_, j_ = pl["of_block"]
+            full, one = common.parse_vec(impl[ib_]), common.parse_vec(impl[pl["repeat"]])
+            offs_, _tot = offsets(ps_)
+            if full is None or one is None or full[offs_[j_]:offs_[j_] + len(one)] != one:
+                viol.append((pl["what"], ib_))
+            continue
         if "repeat" in pl:
             if impl[pl["repeat"]] != impl[pl["of"]]:
                 viol.append((pl.get("what", "answer depends on earlier queries"), pl["repeat"]))
